@@ -268,6 +268,29 @@ def run(tier):
         for t in ('0:' * n + '7', '0;' * n + '7.5', ':' * n, 'x;' * n, '1:' * n + '1', ' ' * n + '5', '5' + ' ' * n, '1' * n, '1.' + '0' * n + '1', '-' * n, '0' * n + ':0',
                   '1:2;' * n, '%s' * n, '1' + '0' * n + ':00', '1:' + '9' * n, '.' * n, '1e' + '9' * n, '(' * n):
             ph_check(acc, t)
+    # refused texts that begin with a long run of digits (possibly grouped by blanks, dots or commas): whatever inspects a refused text must come back;
+    # a call that has not returned after five seconds is reported (an error message built with a backtracking pattern doubles its time with every digit)
+    import signal
+
+    class _Slow(Exception):
+        pass
+
+    def _alarm(sig, frm):
+        raise _Slow()
+    old = signal.signal(signal.SIGALRM, _alarm)
+    try:
+        for n in (12, 20, 26, 32, 40, 60, 400):
+            for t in ('4' * n + 'x', '3' * n + ':x', '12 ' * (n // 3) + 'sec', '1.' * (n // 2) + 'x', '9' * n + ',5,', '7' * n + ' .', ':' + '5' * n + 'x', '0' * n + '-'):
+                signal.alarm(5)
+                try:
+                    ph_check(acc, t)
+                except _Slow:
+                    acc.bad('parse:does-not-return-within-5s', dict(text=t), 'parse_hms(%r) had not returned after five seconds' % (t[:80],))
+                    break
+                finally:
+                    signal.alarm(0)
+    finally:
+        signal.signal(signal.SIGALRM, old)
     for t in (b'12', 12.5, None, [], ('1',), True):           # not text at all: a number may be passed through, anything else -> ValueError (or TypeError for non-text)
         acc.n += 1
         try:
